@@ -29,6 +29,8 @@ type GateSpec struct {
 	// DescendInto restricts Descend to closures for which it returns true (nil = all).
 	DescendInto func(mc *ssa.MakeClosure) bool
 	MaxStates   int
+	// Mark is called after an If edge was taken (cond evaluated to want) so that sticky gate bits can be set.
+	Mark func(s *State, cond ssa.Value, want bool)
 }
 
 type gateResult struct {
@@ -62,6 +64,14 @@ func (c *Check) runGate(spec *GateSpec, fn *ssa.Function, init *State, res *gate
 			}
 		}
 		return true
+	}
+	if spec.Mark != nil {
+		ex.OnEdge = func(s *State, from *ssa.BasicBlock, succ int) bool {
+			if t, ok := from.Instrs[len(from.Instrs)-1].(*ssa.If); ok {
+				spec.Mark(s, t.Cond, succ == 0)
+			}
+			return true
+		}
 	}
 	ex.Run(fn, init)
 	c.Touch(fn)
